@@ -49,6 +49,9 @@ type interp struct {
 	// floatConsts: float constants are modelled as fixed-point integers (x 1e6);
 	// only for rules that merely compare a bound random draw with a constant
 	floatConsts bool
+	env         map[ssa.Value]ival // environment of the outermost frame (for hooks)
+	// loadAddr, when set, is consulted first for loads (gives access to the base pointer's value)
+	loadAddr func(u *ssa.UnOp, env map[ssa.Value]ival) (ival, bool)
 }
 
 type runResult struct {
@@ -118,6 +121,9 @@ func (it *interp) val(v ssa.Value, env map[ssa.Value]ival) ival {
 // Run interprets fn from (block b, index i) with env pre-populated.
 func (it *interp) Run(fn *ssa.Function, b *ssa.BasicBlock, idx int, env map[ssa.Value]ival) (res runResult) {
 	var prev *ssa.BasicBlock
+	if it.depth == 0 {
+		it.env = env
+	}
 	for {
 		for i := idx; i < len(b.Instrs); i++ {
 			in := b.Instrs[i]
@@ -154,6 +160,12 @@ func (it *interp) Run(fn *ssa.Function, b *ssa.BasicBlock, idx int, env map[ssa.
 					a := it.val(x.X, env)
 					env[x] = ival{kind: 'i', i: wrapInt(-a.i, x.Type())}
 				case token.MUL:
+					if it.loadAddr != nil {
+						if v, ok := it.loadAddr(x, env); ok {
+							env[x] = v
+							break
+						}
+					}
 					chain, root := fieldPath(x)
 					if al, ok := root.(*ssa.Alloc); ok && len(chain) == 0 {
 						// local cell
@@ -266,7 +278,7 @@ func (it *interp) Run(fn *ssa.Function, b *ssa.BasicBlock, idx int, env map[ssa.
 					out = append(out, it.val(r, env))
 				}
 				return runResult{outcome: "return", ret: out}
-			case *ssa.DebugRef:
+			case *ssa.DebugRef, *ssa.Defer, *ssa.RunDefers:
 			default:
 				outsidef("instruction %T (%v) is outside the comparison-only fragment", in, in)
 			}
